@@ -189,13 +189,37 @@ def cases(draw):
     defs = parts + g.frags
     order = draw(st.permutations(range(len(defs))))
     text = "\n".join(defs[i] for i in order)
-    return {"text": text, "variables": g.vars, "limit": draw(st.integers(0, 10)),
+    more = []
+    if g.vars and draw(st.booleans()):
+        more = [{v: draw(st.booleans()) for v in g.vars} for _ in range(draw(st.integers(1, 2)))]
+    return {"text": text, "variables": g.vars, "more_variables": more, "limit": draw(st.integers(0, 10)),
             "operation_name": draw(st.sampled_from([None, None, "A", "B", "Nope"])),
             "via": draw(st.sampled_from(["direct", "validate_ast"]))}
 
 
 # ------------------------------------------------------------------ oracle
 def check(case):
+    """the case's own variables first; then, with the SAME rule instance and parsed document, each assignment of
+    case["more_variables"] (a rule configured once and re-used is the documented way to use it)"""
+    vios, considered = check_one(case, None)
+    shared = None
+    for mv in case.get("more_variables") or []:
+        if vios:
+            break
+        if shared is None:
+            shared = {}
+            check_one(case, shared)          # first use of the shared rule: the case's own variables
+        c2 = dict(case, variables=mv)
+        v2, _ = check_one(c2, shared)
+        if v2:
+            fresh, _ = check_one(c2, None)
+            for sig, d in v2:
+                vios.append((sig if fresh else "C19/verdict-depends-on-earlier-use-of-the-rule-instance",
+                             "variables=%r after %r: %s" % (mv, case["variables"], d)))
+    return vios, considered
+
+
+def check_one(case, shared):
     from py_gql.lang import parse
     from py_gql.utilities import MaxDepthValidationRule
     from py_gql.validation import validate_ast
@@ -209,8 +233,13 @@ def check(case):
             continue
         considered[(name, tuple(op["loc"]))] = d
     expected = sorted(k for k, d in considered.items() if d > case["limit"])
-    rule = MaxDepthValidationRule(case["limit"], operation_name=case["operation_name"])
-    doc = parse(text)
+    if shared is not None and "rule" in shared:
+        rule, doc = shared["rule"], shared["doc"]
+    else:
+        rule = MaxDepthValidationRule(case["limit"], operation_name=case["operation_name"])
+        doc = parse(text)
+        if shared is not None:
+            shared["rule"], shared["doc"] = rule, doc
     try:
         if case["via"] == "direct":
             errs = rule(schema(), doc, dict(variables))
